@@ -67,6 +67,11 @@ class Observer(Controller):
 
     def finalize_step(self, net, time):
         self.seen.append((int(time), bool(net.get("converged")), tuple(netmodel.any_number_in_results(net))))
+        # options in force for the calculation of this step (C14: a calculation started by the loop resolves its
+        # options like a direct call)
+        if not hasattr(self, "opts_seen"):
+            self.opts_seen = []
+        self.opts_seen.append((int(time), {k: v for k, v in dict(net.get("_options", {})).items() if isinstance(v, (str, int, float, bool, type(None)))}))
 
 
 # ==========================================================================================
@@ -184,15 +189,25 @@ def generate(seed, tier, prop):
     restart = None
     if prop == "C15" or rng.random() < 0.15:
         restart = rng.choice(["json_str", "json_file", "json_enc", "pickle_fobj"]) if len(runs) > 1 else None
+    # options stored with the net before the loop is started
+    user_opts = None
+    if rng.random() < 0.35 or prop == "C14":
+        pool_u = [{"friction_model": rng.choice(["colebrook", "swamee-jain"])}, {"ambient_temperature": 283.15}, {"tol_p": 1e-6, "tol_m": 1e-6},
+                  {"iter": 45}, {"max_iter_hyd": 45, "my_unknown_option": 3}]
+        if meta["thermal"]:
+            pool_u += [{"mode": "all"}, {"mode": "all"}, {"mode": "sequential"}]
+        user_opts = rng.choice(pool_u)
     return {"engine": ENGINE, "prop": prop, "seed": seed, "tier": tier, "program": program, "meta": meta,
-            "controllers": ctrls, "profiles": profiles, "n_steps": T, "runs": runs, "faults": faults,
-            "logs": logs, "observer": rng.random() < 0.5, "restart": restart,
+            "controllers": ctrls, "profiles": profiles, "n_steps": T, "runs": runs, "faults": faults, "user_opts": user_opts,
+            "logs": logs, "observer": rng.random() < 0.5 or prop == "C14", "restart": restart,
             "knobs": {"fault_free": fault_free, "bad_steps": bad_steps}, "ops": []}
 
 
 # ==========================================================================================
 def _build_world(trace, with_observer):
     net = netmodel.build(trace["program"])
+    if trace.get("user_opts"):
+        pp.set_user_pf_options(net, **trace["user_opts"])
     prof = trace["profiles"]
     T = trace["n_steps"]
     cols = {k: list(v) + [v[-1]] * (T - len(v)) if len(v) < T else list(v)[:T] for k, v in sorted(prof.items())}
@@ -237,6 +252,8 @@ def _step_values(trace, t):
 
 def _twin(trace, t, kw, solver):
     twin = netmodel.build(trace["program"])
+    if trace.get("user_opts"):
+        pp.set_user_pf_options(twin, **trace["user_opts"])
     for (el, i, var, val) in _step_values(trace, t):
         if el in twin and i in twin[el].index:
             twin[el].at[i, var] = val
@@ -458,6 +475,18 @@ def _execute(trace, res, solver, fs):
                 if flagged and numbered:
                     res.violate("C13", "C13/failed-step-left-results:%s" % numbered[0], "step %d" % t, steps.index(t))
             res.count("probe:observer-steps", len(obs.seen))
+            # ---- C14: options in force in the loop = resolution of (stored user options, options given to the loop)
+            from . import e1 as _e1
+            model = _e1.model_resolve(dict(trace.get("user_opts") or {}), kw, trace["program"]["fluid"])
+            for (t, got) in getattr(obs, "opts_seen", []):
+                for k_ in sorted(_e1.OPTION_DEFAULTS):
+                    if k_ == "alpha" and model.get("nonlinear_method") == "automatic":
+                        continue
+                    if k_ in got and k_ in model and got[k_] != model[k_]:
+                        layers = "%s%s" % ("u" if k_ in (trace.get("user_opts") or {}) else "-", "c" if k_ in kw else "-")
+                        res.violate("C14", "C14/resolution:%s:%s@timeseries" % (k_, layers), "step %d: in force %r, model %r" % (t, got[k_], model[k_]), 0)
+                res.oracle_checks += 1
+            obs.opts_seen = []
         res.sig_parts.append("|cod%d|%s|%s" % (run["cod"], run["form"], "R" if raised else "-"))
         for f in solver.fired:
             pass
